@@ -66,7 +66,35 @@ def run(F, rep):
         vint_rule(F, rep, "C03-VINT")
 
 
+def cursor_rule(F, rep, rule="C03-BATCH"):
+    """The lazily loaded batches are placed behind one another: the placement cursor of load_contig_batch (the field that
+    gives the first sample index of the next batch) moves by `cursor += number of samples in this batch` and by nothing
+    else - it is cumulative, never recomputed from the batch number."""
+    lb = F.funcs.get(COL + "load_contig_batch")
+    if lb is None:
+        return
+    ex = Exprs(lb)
+    writes = []
+    for b in lb.blocks:
+        for s_ in b["stmts"]:
+            if s_["k"] == "assign" and s_["pl"]["p"]:
+                last = s_["pl"]["p"][-1]
+                if isinstance(last, dict) and last.get("n") == "samples_loaded":
+                    writes.append((s_, strip_tags(ex.rvalue(s_["rv"]))))
+    ok = bool(writes)
+    why = []
+    for s_, e in writes:
+        # accept: field + x  (possibly through the .0 of an overflow-checked add)
+        txt = fmt(e)
+        good = re.search(r"Add\(.*samples_loaded.*\)", txt) is not None and re.search(r"no_samples_in_last_batch|len\(", txt) is not None and "id_batch" not in txt
+        why.append(txt[:90])
+        ok = ok and good
+    rep.ob(rule, "the batch placement cursor advances cumulatively (samples_loaded += samples in this batch)", ok, detail="writes: %s" % why,
+           site="%s:%d" % (lb.file, lb.line_lo), key="%s | load_contig_batch | cumulative cursor" % rule)
+
+
 def _run(F, rep):
+    cursor_rule(F, rep)
     rep.explanation = EXPLANATION
     rep.undecided = UNDECIDED
     rep.assumptions = ["Vec preserves insertion order; HashMap<String, usize> is used for lookup only"]
